@@ -116,6 +116,17 @@ fn main() {
             procs::worker_main(&args[2], tier, p(4), p(5), p(6), p(7), &skip, p(9))
         }
         "exec-scenario" => procs::exec_scenario_main(&args[2], &args[3]),
+        "steer-tokens" => {
+            // steer-tokens <protocol> <token>...: diagnostic for compact steering recipes
+            let p: u8 = args.get(2).and_then(|s| s.parse().ok()).unwrap_or(2);
+            let toks: Vec<String> = args[3..].to_vec();
+            let t = std::time::Instant::now();
+            match synth::steer_tokens(p, &toks) {
+                Some(s) => println!("steered {} opcodes with {} script bytes in {:?}", synth::token_ops(&toks), s.len(), t.elapsed()),
+                None => println!("not steerable ({:?})", t.elapsed()),
+            }
+            0
+        }
         "probe-patterns" => {
             // probe-patterns <seed> <outfile>: the adaptive pattern probes, isolated from the supervisor
             procs::limit_address_space(procs::CHILD_ADDRESS_SPACE);
@@ -677,6 +688,10 @@ fn check_c09(tier: Tier, seed: u64) -> i32 {
         exhaustive: false,
     });
     println!("done property=C09 runs={} calls={} distinct_nontrivial={} wall={:.1}s violations={} restarts={}", stats.evaluations, stats.calls, stats.nontrivial.len(), out.wall_s, nviol, out.worker_restarts);
+    if code == 0 && stats.evaluations < runs / 10 {
+        eprintln!("HARNESS ERROR: only {} of {} requested runs were executed before the wall-clock cap; no verdict", stats.evaluations, runs);
+        return 2;
+    }
     code
 }
 
@@ -804,6 +819,10 @@ fn check_solo_family(prop: &str, tier: Tier, seed: u64) -> i32 {
         Tier::Thorough => spec.runs_thorough,
     });
     let out = engine::sweep_solo(&spec, tier, seed, runs, wall_cap(tier), &known);
+    if out.found.is_empty() && out.capped && out.stats.evaluations < runs / 10 {
+        eprintln!("HARNESS ERROR: only {} of {} requested runs were executed before the wall-clock cap; no verdict", out.stats.evaluations, runs);
+        return 2;
+    }
     let mut stats = out.stats;
     let found = out.found;
     // C15 / C16: component-level enumeration of fault points on the entropy reader
